@@ -44,6 +44,7 @@ def handle (st : DrvState) (line : String) : DrvState × String :=
   | "mac.enc" :: rest => (st, handleMacEnc rest)
   | "dev.rx" :: rest => (st, handleDevRx rest)
   | "dev.tx" :: rest => (st, handleDevTx rest)
+  | "eui.new" :: rest => (st, handleEui rest)
   | op :: rest =>
     if op.startsWith "gw." then
       let (g, out) := handleGw st.gw (op :: rest)
